@@ -35,6 +35,10 @@ def cases(tier):
     for k in range(1, kmax + 1):
         for sub in itertools.combinations(range(len(alphabet)), k):
             out.append(dict(ranges=[[alphabet[i][0], alphabet[i][1], i] for i in sub], api_inf=False))
+    # ranges that repeat a definition (a zero core and a zero tail around something else), every listing order
+    for rg in ([['>=', 0.0, 0], ['>=', 2.0, 0], ['>', 1.0, 1]], [['>', 0.0, 2], ['>=', 1.0, 3], ['>', 2.0, 2], ['>=', 3.0, 3]], [['>=', 0.0, 1], ['>', 1.0, 1], ['>=', 2.0, 4], ['>', 3.0, 1]],
+               [['>', 0.0, 0], ['>', 1.0, 5], ['>', 2.0, 5], ['>', 3.0, 0], ['>=', 0.5, 5]]):
+        out.append(dict(ranges=rg, api_inf=False))
     # many ranges (piecewise potentials with one polynomial per knot interval): 9..14 ranges, structured listing orders
     for n in (9, 10, 12, 14):
         for pat in range(3):
